@@ -298,6 +298,70 @@ pub fn run(cx: &mut Ctx) {
     }
     cx.exhaustive.push("all 256 first header bytes x 4 types".into());
 
+    // the HandlingError constructors: the response code each one carries (the model's error values
+    // are tied to these by C11.error_codes_match_source over the regenerated constants)
+    {
+        use coap_lite::error::HandlingError;
+        let ctors: [(&str, HandlingError); 5] = [
+            ("notHandled", HandlingError::not_handled()),
+            ("notFound", HandlingError::not_found()),
+            ("badRequest", HandlingError::bad_request("x")),
+            ("internal", HandlingError::internal("x")),
+            ("methodNotSupported", HandlingError::method_not_supported()),
+        ];
+        for (name, e) in ctors.iter() {
+            let c = e.code.map(|c| u8::from(MessageClass::Response(c)).to_string()).unwrap_or("none".into());
+            cx.case(&format!("TBL errctor {}", name), &c);
+            // rendering an error never fails and mentions its message
+            let txt = guarded(|| format!("{}", e));
+            if txt.is_none() {
+                cx.oracle_fail("C11", &format!("TBL errctor {}", name), "Display of a HandlingError panicked");
+            }
+        }
+        for b in 0..=255u8 {
+            if let MessageClass::Response(rt) = MessageClass::from(b) {
+                let e = HandlingError::with_code(rt, "m");
+                let back = e.code.map(|c| u8::from(MessageClass::Response(c)));
+                if back != Some(b) {
+                    cx.oracle_fail("C11", &format!("TBL errctor with_code {}", b), &format!("with_code stores {:?}", back));
+                }
+            }
+        }
+    }
+    // HeaderRaw::serialize_into: needs a capacity of at least 4 bytes, writes exactly the 4 header bytes
+    for cap in [0usize, 1, 2, 3, 4, 5, 8, 64] {
+        for (b0, code, mid) in [(0x40u8, 0x01u8, 0u16), (0x7f, 0x45, 0x1234), (0xff, 0xff, 0xffff), (0x00, 0x00, 0x00ff)] {
+            let mut h = Header::new();
+            h.set_version(b0 >> 6);
+            h.set_type(match (b0 >> 4) & 3 { 0 => coap_lite::MessageType::Confirmable, 1 => coap_lite::MessageType::NonConfirmable, 2 => coap_lite::MessageType::Acknowledgement, _ => coap_lite::MessageType::Reset });
+            h.set_token_length(b0 & 0x0f);
+            h.code = MessageClass::from(code);
+            h.message_id = mid;
+            let mut v: Vec<u8> = Vec::with_capacity(cap);
+            let real_cap = v.capacity();
+            let r = guarded(|| h.to_raw().serialize_into(&mut v).map(|_| v.clone()));
+            let line = format!("TBL hdrser {} {} {} {}", real_cap, b0, code, mid);
+            match r {
+                None => {
+                    cx.case(&line, "panic");
+                    cx.oracle_fail("C04", &line, "HeaderRaw::serialize_into panicked");
+                }
+                Some(Ok(bytes)) => {
+                    cx.case(&line, &format!("ok {}", hex(&bytes)));
+                    if real_cap < 4 || bytes != vec![b0, code, (mid >> 8) as u8, mid as u8] {
+                        cx.oracle_fail("C04", &line, "header serialised into a buffer without room for it, or wrong bytes");
+                    }
+                }
+                Some(Err(_)) => {
+                    cx.case(&line, "err");
+                    if real_cap >= 4 {
+                        cx.oracle_fail("C04", &line, "header refused although the buffer has room for 4 bytes");
+                    }
+                }
+            }
+        }
+    }
+
     // constants
     cx.case("TBL const maxsize", &Packet::MAX_SIZE.to_string());
     let d = Header::new();
